@@ -849,7 +849,15 @@ class CxxEvaluator(Evaluator):
                     t = v.get("t", "")
                     if t.endswith("]") and "[" in t:
                         n = t[t.index("[") + 1:-1]
-                        env[v["id"]] = Buf(int(n)) if n.isdigit() else None
+                        if n.isdigit():
+                            env[v["id"]] = Buf(int(n))
+                        elif v.get("vla") is not None:
+                            sz = self.eval(v["vla"], env, this)
+                            if not isinstance(sz, int) or sz < 0 or sz > 1 << 20:
+                                raise OutOfBounds("variable-length array `%s` of size %s at %s" % (v["n"], sz, v.get("l")))
+                            env[v["id"]] = Buf(sz)
+                        else:
+                            env[v["id"]] = None
                     else:
                         env[v["id"]] = self._default(t)
                 else:
